@@ -132,6 +132,7 @@ def match_rich(impl_s, model_tok, tol):
     rounded) to that value."""
     items = model_tok[1:].split('.') if len(model_tok) > 1 else []
     pos = 0
+    scale = line_scale([it for it in items if it and it[0] == 'q']) if tol else Fraction(0)
     for it in items:
         if it == '':
             continue
@@ -144,7 +145,7 @@ def match_rich(impl_s, model_tok, tol):
                 x = float(txt)
             except ValueError:
                 return False
-            if not num_eq(num_of_float(x), decode_num(it), tol):
+            if not num_eq(num_of_float(x), decode_num(it), tol, scale):
                 return False
             pos = m.end()
         else:
@@ -298,7 +299,10 @@ def cmp_special(op, it, mt, tol):
                 exp = idx / math.pow(n, 1.5)
             return close(fl(it[0]), exp, 1e-12)
         if name == 'layout':
-            return cmp_layout(it, mt)
+            f = 1.0
+            if len(op) > 1:
+                f = bits_f64(int(op[1][1:].split(':')[0], 16))
+            return cmp_layout(it, mt, f)
         if name == 'to_nexus':
             n = int(mt[0])
             j = mt.index(']')
@@ -312,7 +316,7 @@ def cmp_special(op, it, mt, tol):
         return False
     return None
 
-def cmp_layout(it, mt):
+def cmp_layout(it, mt, factor=1.0):
     # impl: branches [ xs ys xe ye ; ... ] nodes [ x y label ; ... ] ; model: branches [ u v d ang name ; ...]
     def groups(toks, start):
         assert toks[start + 1] == '['
@@ -345,9 +349,9 @@ def cmp_layout(it, mt):
         px, py = pos[u]
         ex, ey = px + d * math.cos(a), py + d * math.sin(a)
         pos[v] = (ex, ey)
-        tolr = 1e-9 * max(scale * len(mb), 1e-300)
+        tolr = 1e-9 * max(scale * len(mb), 1e-300) * max(abs(factor), 1e-300)
         for got, want in ((fl(xs), px), (fl(ys), py), (fl(xe), ex), (fl(ye), ey), (fl(x), ex), (fl(y), ey)):
-            if abs(got - want) > tolr:
+            if abs(got - want * factor) > tolr:
                 return False
         if lab != nm:
             return False
